@@ -1,7 +1,7 @@
 """C14 - a file on disk, its URI and its note key always name the same note."""
 from vlib import factbase as fb
 from vlib import q
-from .common import ctx, loc
+from .common import pname, ctx, loc
 
 TRIMS = ("core::str::trim_end_matches", "core::str::trim_start_matches", "core::str::trim_matches",
          "std::str::trim_end_matches", "std::str::trim_start_matches", "std::str::trim_matches",
@@ -150,7 +150,7 @@ def rule_r3(facts, rep, rid="C14-R3"):
     rf = facts.fn("liwe::fs::read_file")
     c = ctx(rf)
     m = c.mentions(rf.body)
-    if q.has_call(m, "liwe::fs::to_file_name") and (("param", "sub") in m or any(a[0] == "param" for a in m)):
+    if q.has_call(m, "liwe::fs::to_file_name") and (("param", pname(rf, 1)) in m):
         rep.ok(rid, rf.def_ + "|key-is-subdirs-plus-stem", "", rf.loc)
     else:
         rep.violation(rid, rf.def_ + "|key-is-subdirs-plus-stem", "loader key is no longer `<sub dirs>/<file stem>`", rf.loc)
@@ -172,7 +172,7 @@ def rule_r3(facts, rep, rid="C14-R3"):
                 if y.get("k") == "mcall" and y["name"] in ("push", "extend", "extend_from_slice", "append") and y["recv"].get("k") == "path" and y["recv"].get("id") == lid:
                     grown = True
                     at |= cnf.mentions(y["args"][0])
-        has_parent = ("param", "sub_path") in at
+        has_parent = ("param", pname(nf, 1)) in at
         has_name = any(a[0] == "call" and a[1] and a[1].endswith("Path::file_name") for a in at)
         if has_parent and has_name:
             rep.ok(rid, key, "recursive call gets sub_path + [directory name]", loc(nf, rec[0]))
@@ -181,7 +181,7 @@ def rule_r3(facts, rep, rid="C14-R3"):
                           "so the file, its URI and its key no longer name the same note" % ("the directory name only" if has_name and not has_parent else "the parent path only" if has_parent else "neither the parent path nor the directory name"), loc(nf, rec[0]))
     files = [x for x in fb.walk(nf.body) if x.get("k") == "call" and (fb.callee(x) or "").endswith("liwe::fs::read_file")]
     key = nf.def_ + "|files-get-current-sub-path"
-    if files and len(files[0]["args"]) > 1 and ("param", "sub_path") in ctx(nf).vprov(files[0]["args"][1]):
+    if files and len(files[0]["args"]) > 1 and ("param", pname(nf, 1)) in ctx(nf).vprov(files[0]["args"][1]):
         rep.ok(rid, key, "read_file(path, &sub_path)", loc(nf, files[0]))
     else:
         rep.violation(rid, key, "files are not read with the current sub_path", nf.loc)
